@@ -65,6 +65,29 @@ def pair_item(idx, a, b):
                         dict(desc="equivalence / ratio of %s and %s" % (a.cpp("unit"), b.cpp("unit"))))
 
 
+ACCESS_PATHS = [
+    ("data_in:const:unit", "const auto q = au::make_quantity<A>(1.5); (void)q.data_in(B{});"),
+    ("data_in:mutable:unit", "auto q = au::make_quantity<A>(1.5); (void)q.data_in(B{});"),
+    ("data_in:const:maker", "const auto q = au::make_quantity<A>(1.5); (void)q.data_in(au::QuantityMaker<B>{});"),
+    ("data_in:mutable:maker", "auto q = au::make_quantity<A>(1.5); (void)q.data_in(au::QuantityMaker<B>{});"),
+    ("data_in:write", "auto q = au::make_quantity<A>(1.5); q.data_in(B{}) = 2.5;"),
+]
+
+
+def access_items(idx, a, b):
+    """"Treated as quantity-equivalent (freely interconvertible, factor exactly 1) if and only if
+    ...": direct access to the stored number trusts the unit NAME instead of converting, so every
+    access path (const / mutable object, unit type / maker spelling, read / write) must accept a
+    unit exactly when it is equivalent to the quantity's own."""
+    equiv = model.key(a.dim()) == model.key(b.dim()) and model.key(a.magm()) == model.key(b.magm())
+    head = "using A = std::decay_t<decltype(%s)>; using B = std::decay_t<decltype(%s)>;\n" % (a.cpp("unit"), b.cpp("unit"))
+    out = []
+    for nm, code in ACCESS_PATHS:
+        out.append(witness.Item("access%d:%s:%s|%s" % (idx, nm, a.cpp("unit"), b.cpp("unit")), head + "void w() { %s }" % code, "accept" if equiv else "reject", None,
+                                dict(desc="%s of a quantity of %s through %s (%s)" % (nm, a.cpp("unit"), b.cpp("unit"), "equivalent" if equiv else "not equivalent"))))
+    return out
+
+
 def order_tables(ctx, units, prefixes, prelude, rnd):
     """Pairwise tables of the three orderings, extracted from the constant evaluator; Python checks
     that each is a strict total order.  Returns stats."""
@@ -261,6 +284,8 @@ def body(ctx):
             continue
         items.append(pair_item(i, a, b))
         npairs += 1
+        if npairs % (4 if ctx.thorough else 6) == 0:
+            items += access_items(i, a, b)
     ostats, oitems = order_tables(ctx, units, pfx, prelude, rnd)
     items += oitems
     items += fixed_items
